@@ -72,6 +72,14 @@ CHECKS.update({
   "DESIGN.md 4 C20"),
 })
 
+CHECKS.update({
+ "C18": ("exploration", "approvex/merge",
+  "exhaustive enumeration of part-shape combinations (IPv4 x IPv6 x raw prepend x raw APPEND x naming) for all five device types; the effective target is observed by executing the real planner's script for an empty device on the reference models; oracle = independent list predicates for completeness, intra-part order, raw-first and APPEND position; plus a fixed list of unmergeable raw entries that must be reported",
+  "All combinations of the stated part shapes are enumerated (954 cases); the merge result is observed end to end (real merge + real diff + model execution) and checked with predicates that share nothing with the tool's merge code.",
+  "Relative order of IPv4 vs IPv6 entries is not prescribed and not checked; entries per part are bounded (<=3/2/2).",
+  "DESIGN.md 4 C18"),
+})
+
 NOT_YET = "check not built yet in this round (design in DESIGN.md section 4); no technique switch intended"
 
 def main():
